@@ -41,9 +41,11 @@ class Ctx:
         self.engines = []
         self.replayers = {}
         self.notes = []
+        self._pending_units = []
 
     # engines -----------------------------------------------------------
     def engine(self, **kw):
+        kw.setdefault("feas_timeout_ms", 400)
         e = Engine(repo=REPO, **kw)
         self.engines.append(e)
         return e
@@ -94,6 +96,10 @@ class Ctx:
         self.expectations.append((desc, bool(ok)))
 
     def unit(self, name, fn):
+        """Register one proof unit (run later, in parallel, by run_units)."""
+        self._pending_units.append((name, fn))
+
+    def _run_unit_here(self, name, fn):
         """Run one proof unit; Unsupported => undecided (never a violation)."""
         t0 = time.time()
         n0 = len(self.obls)
@@ -101,12 +107,62 @@ class Ctx:
             fn()
             self.units.append({"unit": name, "status": "generated", "obligations": len(self.obls) - n0, "gen_s": round(time.time() - t0, 3)})
         except Unsupported as ex:
+            del self.obls[n0:]
             self.undecided.append((name, f"engine: {ex}"))
             self.units.append({"unit": name, "status": "undecided", "reason": str(ex)})
         except Exception as ex:  # engine defect: undecided, reported loudly
+            del self.obls[n0:]
             tb = traceback.format_exc()
             self.undecided.append((name, f"engine error: {type(ex).__name__}: {ex}"))
             self.units.append({"unit": name, "status": "undecided", "reason": f"{type(ex).__name__}: {ex}", "traceback": tb[-1500:]})
+
+    def _child(self, idx):
+        name, fn = self._pending_units[idx]
+        self.obls, self.units, self.undecided, self.expectations = [], [], [], []
+        self.engines, self.notes = [], []
+        self._names, self._seen = set(), {}
+        nt, na = len(self.trusted), len(self.assumptions)
+        self._run_unit_here(name, fn)
+        self.collect_functions()
+        return {
+            "obls": [{"name": o.name, "smt2": o.smt2, "func": o.func, "kind": o.kind, "info": o.info, "replay": o.replay, "expect": o.expect} for o in self.obls],
+            "units": self.units, "undecided": self.undecided, "expectations": self.expectations,
+            "functions": self.functions, "trusted": self.trusted[nt:], "assumptions": self.assumptions[na:], "notes": self.notes,
+        }
+
+    def run_units(self, procs=16):
+        import multiprocessing as mp
+        global _CTX
+        _CTX = self
+        n = len(self._pending_units)
+        if n == 0:
+            return
+        if os.environ.get("PYVC_SERIAL"):
+            results = [_child_entry(i) for i in range(n)]
+        else:
+            with mp.get_context("fork").Pool(min(procs, n)) as pool:
+                results = pool.map(_child_entry, range(n), chunksize=1)
+        obls, units, und, exps, funcs = [], [], [], [], {}
+        for r in results:
+            for d in r["obls"]:
+                o = Obligation(d["name"], [], None, prop=self.prop, func=d["func"], kind=d["kind"], info=d["info"], replay=d["replay"], expect=d["expect"])
+                o.smt2 = d["smt2"]
+                nm = o.name
+                i = 2
+                while o.name in {x.name for x in obls}:
+                    o.name = f"{nm}~{i}"
+                    i += 1
+                obls.append(o)
+            units += r["units"]
+            und += [tuple(x) for x in r["undecided"]]
+            exps += [tuple(x) for x in r["expectations"]]
+            funcs.update(r["functions"])
+            self.trust(*r["trusted"])
+            for a_ in r["assumptions"]:
+                self.assume_note(a_)
+            self.notes += r["notes"]
+        self.obls, self.units, self.undecided, self.expectations = obls, units, und, exps
+        self.functions = funcs
 
     def add_bounded(self, name, kind, **params):
         self.bounded.append({"name": name, "kind": kind, "params": params})
@@ -114,6 +170,13 @@ class Ctx:
     def collect_functions(self):
         for e in self.engines:
             self.functions.update(e.fn_hashes)
+
+
+_CTX = None
+
+
+def _child_entry(idx):
+    return _CTX._child(idx)
 
 
 def run_replay(kind, payload, timeout=300):
@@ -172,7 +235,7 @@ def main(argv=None):
         return 3
     ctx = Ctx(prop, tier, seed)
     mod.build(ctx)
-    ctx.collect_functions()
+    ctx.run_units()
     if a.list:
         for o in ctx.obls:
             print(o.name, o.kind, o.expect)
